@@ -381,6 +381,11 @@ class ExprMixin(object):
   def ev_ListComp(self, node, st, cx):
     """[elt for x in <list> if cond]: a fresh list described by a strictly increasing index map
     into the source list (order preserving, complete: every element satisfying cond appears)."""
+    comps = getattr(cx.spec, 'comps', None) if cx.spec is not None and cx.qual == cx.spec.name else None
+    if comps and ast.unparse(node) in comps:
+      for o in self.ev_listcomp_as_loop(node, st, cx, comps[ast.unparse(node)]):
+        yield o
+      return
     if len(node.generators) != 1 or node.generators[0].is_async or len(node.generators[0].ifs) > 1 \
         or not isinstance(node.generators[0].target, ast.Name):
       raise Unsupported('list comprehension shape (line %d)' % node.lineno)
@@ -429,6 +434,33 @@ class ExprMixin(object):
         st1.assume(m == n)
         st1.assume(z3.ForAll([k], z3.Implies(z3.And(0 <= k, k < n), z3.Select(items, k) == sub(coerce(elt, elt.ty), k))))
       yield st1, res
+
+  def ev_listcomp_as_loop(self, node, st, cx, ls):
+    """[f(x) for x in xs] whose element has effects (a contract call): the loop  acc = []; for x in xs: acc.append(f(x)),
+    cut at the invariant the sidecar gives under comps={<text>: {...}} (the accumulator is called _acc there)."""
+    g = node.generators[0]
+    if len(node.generators) != 1 or g.is_async:
+      raise Unsupported('list comprehension shape (line %d)' % node.lineno)
+    ety = parse_type(ls['elem'])
+    frame_id = cx.chain[0]
+    acc = self.new_list(st, Ty('list', [ety]), [])
+    st.frames[frame_id]['_acc'] = acc
+    body = [ast.Expr(value=ast.Call(func=ast.Attribute(value=ast.Name(id='_acc', ctx=ast.Load()), attr='append', ctx=ast.Load()), args=[node.elt], keywords=[]))]
+    for cond in reversed(g.ifs):
+      body = [ast.If(test=cond, body=body, orelse=[])]
+    loop = ast.For(target=g.target, iter=g.iter, body=body, orelse=[], type_comment=None)
+    ast.copy_location(loop, node)
+    ast.fix_missing_locations(loop)
+    spec_ls = dict(ls)
+    spec_ls.pop('elem', None)
+    loop._pyvc_loop_spec = (spec_ls.pop('ordinal', 900), spec_ls)      # the hidden position is called _i<ordinal> in the invariant
+    for s1, out in self.ex_For(loop, st, cx):
+      if out[0] == 'next':
+        yield s1, s1.frames[frame_id]['_acc']
+      elif out[0] == 'exc':
+        yield s1, out[1]
+      else:
+        raise Unsupported('control flow out of a list comprehension (line %d)' % node.lineno)
 
   def ev_DictComp(self, node, st, cx):
     """{k: f(k, v) for k, v in d.items() if c(k, v)}: a fresh dictionary defined pointwise."""
